@@ -40,7 +40,7 @@ type history struct {
 	// commit also edits the file, so the truth asks git's own log for that one bit
 	RenEdits [][2]string `json:"rename_edits,omitempty"`
 	// HEAD paths whose lineage contains a rename that landed on a path deleted earlier on the branch
-	// (known finding C03-rename-onto-deleted-path)
+	// (stratum; was known finding C03-rename-onto-deleted-path until fix d9e7954)
 	Tainted map[string]bool `json:"onto_deleted_lineage,omitempty"`
 }
 
@@ -59,7 +59,7 @@ type hOpts struct {
 	MaxRules   int
 	MaxCommits int
 	OddPaths   bool // allow non-ASCII / quoted paths
-	OntoDeleted bool // allow renames onto paths deleted earlier on the branch (known finding class)
+	OntoDeleted bool // allow renames onto paths deleted earlier on the branch
 }
 
 func (h *hgen) freshPath(used map[string]bool) string {
@@ -115,6 +115,12 @@ func (h *hgen) generate() *history {
 	strata := map[string]bool{}
 	nc := 1 + r.Intn(h.opts.MaxCommits)
 	deleted := []string{} // fork paths deleted on the branch and not re-created
+	// scripted stratum (OntoDeleted): delete a fork file, later rename another file onto its path, later edit the renamed file;
+	// every step is taken with some probability only, ordinary operations are interleaved
+	ontoStage, ontoPath := 0, ""
+	if h.opts.OntoDeleted && nc < 3 {
+		nc = 3 + r.Intn(2)
+	}
 	for ci := 0; ci < nc; ci++ {
 		// base advancing
 		if r.Intn(4) == 0 {
@@ -128,6 +134,24 @@ func (h *hgen) generate() *history {
 		for k := 0; k < nops; k++ {
 			paths := sortedKeys(state)
 			choice := r.Intn(20)
+			forcedPath, forcedOnto := "", false
+			if h.opts.OntoDeleted && k == 0 {
+				switch {
+				case ontoStage == 0 && len(paths) >= 2 && r.Intn(3) > 0:
+					for _, p := range paths {
+						if hi.Origin[p] == p {
+							choice, forcedPath, ontoStage = 1, p, 1
+							break
+						}
+					}
+				case ontoStage == 1 && len(deleted) > 0 && len(paths) >= 1 && r.Intn(3) > 0:
+					choice, forcedOnto, ontoStage = 2, true, 2
+				case ontoStage == 2 && r.Intn(4) > 0:
+					if f, ok := state[ontoPath]; ok && len(f.Rules) > 0 {
+						choice, forcedPath = 4, ontoPath
+					}
+				}
+			}
 			if len(paths) == 0 {
 				choice = 0
 			}
@@ -164,6 +188,9 @@ func (h *hgen) generate() *history {
 					continue
 				}
 				p := pick(r, paths)
+				if forcedPath != "" {
+					p = forcedPath
+				}
 				if hi.Origin[p] == p {
 					deleted = append(deleted, p)
 				}
@@ -181,11 +208,15 @@ func (h *hgen) generate() *history {
 				to := h.freshPath(used)
 				tainted := hi.Tainted[p]
 				delete(hi.Tainted, p)
-				if h.opts.OntoDeleted && len(deleted) > 0 && r.Intn(2) == 0 {
+				if h.opts.OntoDeleted && len(deleted) > 0 && (forcedOnto || r.Intn(2) == 0) {
 					// the rename lands on a path that was deleted earlier on the branch
 					to = deleted[len(deleted)-1]
 					deleted = deleted[:len(deleted)-1]
 					tainted = true
+					ontoPath = to
+					if ontoStage < 2 {
+						ontoStage = 2
+					}
 					strata["rename-onto-deleted-path"] = true
 				}
 				if tainted {
@@ -209,6 +240,9 @@ func (h *hgen) generate() *history {
 				strata["file-renamed"] = true
 			case choice <= 6: // modify a rule
 				p := pick(r, paths)
+				if forcedPath != "" {
+					p = forcedPath
+				}
 				f := state[p]
 				if len(f.Rules) == 0 {
 					continue
@@ -217,6 +251,10 @@ func (h *hgen) generate() *history {
 				d := h.g.mutateRule(&f.Rules[i])
 				ops = append(ops, hOp{Op: "modify-rule", Path: p, Detail: fmt.Sprintf("%d:%s", i, d)})
 				strata["rule-modified"] = true
+				strata["rule-edit:"+d] = true
+				if hi.Tainted[p] {
+					strata["edit-after-rename-onto-deleted-path"] = true
+				}
 			case choice <= 8: // add a rule
 				p := pick(r, paths)
 				f := state[p]
